@@ -5,6 +5,7 @@ from __future__ import absolute_import, division
 from collections import namedtuple
 import numpy as np
 from numdifftools.extrapolation import EPS
+from numdifftools import _verif
 
 _STATE = namedtuple('State', ['x', 'method', 'n', 'order'])
 __all__ = ('one_step', 'make_exact', 'get_nominal_step', 'get_base_step',
@@ -275,6 +276,9 @@ class MinStepGenerator(object):
     def step_generator_function(self, x, method='forward', n=1, order=2):
         """Step generator function"""
         self._state = _STATE(np.asarray(x), method, n, order)
+        if _verif.ON:
+            _verif.emit('gen_state', gen=id(self), method=method, n=int(n), order=int(order))
+            _verif.yield_point('gen_state')
         base_step, step_ratio = self.base_step * self.step_nom, self.step_ratio
         if self.use_exact_steps:
             base_step = make_exact(base_step)
